@@ -294,6 +294,8 @@ def make_leaf(kind, i):
         return ['f', 'SUM(%d,0)' % p, p]
     if kind == 'call2':
         return ['f', 'MAX(%d,1)' % p, p]
+    if kind == 'tenth':      # non-dyadic decimals: any regrouping changes the floating-point result
+        return ['n', '%d.%d' % (p // 10, p % 10), [p, 10]]
     if kind == 'zero':
         return ['n', '0', [0, 1]]
     raise ValueError(kind)
